@@ -565,6 +565,98 @@ func TestC13(t *testing.T) {
 				}
 			}
 		}
+		// multi-block side branches: the spend rules must hold ACROSS the blocks connected by one reorganisation
+		if mainTip.Height > 4 {
+			fork := mainTip.Parent.Parent
+			grow := func(from *chainkit.Blk) *chainkit.Blk {
+				cur := from
+				for cur.Height <= mainTip.Height {
+					nb, err := tr.Build(cur, []*types.Tx{}, chainkit.BlockOpt{NoRefCheck: true, SkipSlots: 1})
+					if err != nil {
+						return cur
+					}
+					nd.Chain.ProcessBlock(chainkit.CloneBlock(nb.B))
+					cur = nb
+				}
+				return cur
+			}
+			// A. the second block of the branch spends again what the first block of the branch spent
+			if f := firstFund(fork, 4); f != nil {
+				if _, still := mainTip.Utxo[f.U.ID]; still {
+					s1, err1 := tr.Build(fork, []*types.Tx{chainkit.PayTx([]*chainkit.UTXO{f.U}, chainkit.TrueProg, 1, chainkit.DefaultFee)}, chainkit.BlockOpt{SkipSlots: 2})
+					if err1 == nil {
+						nd.Chain.ProcessBlock(chainkit.CloneBlock(s1.B))
+						s2, err2 := tr.Build(s1, []*types.Tx{chainkit.PayTx([]*chainkit.UTXO{f.U}, chainkit.TrueProg, 2, chainkit.DefaultFee+3)}, chainkit.BlockOpt{NoRefCheck: true})
+						if err2 == nil {
+							_, perr := nd.Chain.ProcessBlock(chainkit.CloneBlock(s2.B))
+							if h := s2.Hash; nd.Store.BlockExist(&h) {
+								storedMutants = append(storedMutants, s2)
+							}
+							grow(s2)
+							c.Count("side_branches_extended_past_main", 1)
+							if !checkMutant(s2, "ledger:double-spend-across-blocks-of-one-side-branch", "side-branch", perr) {
+								return
+							}
+							if !extendMain(3) {
+								return
+							}
+						}
+					}
+				}
+			}
+			// B. a side-branch block spends an output that only exists on the branch being detached
+			var only *chainkit.RefUtxo
+			for _, u := range mainTip.SortedUtxos() {
+				if u.Height > fork.Height && u.Type == chainkit.UNormal && u.U.Asset == chainkit.BTM && u.U.Amount > 10*chainkit.DefaultFee && isTrueish(u.U.Program) {
+					only = u
+					break
+				}
+			}
+			fork = mainTip.Parent.Parent
+			if only != nil && only.Height > fork.Height {
+				sb, err := tr.Build(fork, []*types.Tx{chainkit.PayTx([]*chainkit.UTXO{only.U}, chainkit.TrueProg, 1, chainkit.DefaultFee)}, chainkit.BlockOpt{NoRefCheck: true, SkipSlots: 3})
+				if err == nil {
+					_, perr := nd.Chain.ProcessBlock(chainkit.CloneBlock(sb.B))
+					if h := sb.Hash; nd.Store.BlockExist(&h) {
+						storedMutants = append(storedMutants, sb)
+					}
+					grow(sb)
+					c.Count("side_branches_extended_past_main", 1)
+					if !checkMutant(sb, "ledger:spend-output-created-only-on-the-detached-branch", "side-branch", perr) {
+						return
+					}
+					if !extendMain(3) {
+						return
+					}
+				}
+			}
+			// C. orphan delivery: the double-spending child arrives before its (valid) parent, both connect in one call
+			if f := firstFund(mainTip, 5); f != nil {
+				p1, err1 := tr.Build(mainTip, []*types.Tx{chainkit.PayTx([]*chainkit.UTXO{f.U}, chainkit.TrueProg, 1, chainkit.DefaultFee)}, chainkit.BlockOpt{})
+				if err1 == nil {
+					p2, err2 := tr.Build(p1, []*types.Tx{chainkit.PayTx([]*chainkit.UTXO{f.U}, chainkit.TrueProg, 2, chainkit.DefaultFee+5)}, chainkit.BlockOpt{NoRefCheck: true})
+					if err2 == nil {
+						nd.Chain.ProcessBlock(chainkit.CloneBlock(p2.B)) // orphan
+						_, perr := nd.Chain.ProcessBlock(chainkit.CloneBlock(p1.B))
+						if h := p2.Hash; nd.Store.BlockExist(&h) {
+							storedMutants = append(storedMutants, p2)
+						}
+						c.Count("mutant:ledger", 1)
+						if !checkMutant(p2, "ledger:double-spend-in-orphan-child-connected-with-its-parent", "orphan", perr) {
+							return
+						}
+						mainTip = p1
+						if !extendMain(3) {
+							return
+						}
+						if nd.Best() != mainTip.Hash {
+							c.Violation("valid-chain-not-best-after-outgrowing-invalid-block:orphan-child", "the valid chain is not best", map[string]interface{}{"shape": tr.Shape()})
+							return
+						}
+					}
+				}
+			}
+		}
 		// block gas limit: K heavy transactions
 		if c.Index%4 == 0 && heavyGas > 0 {
 			gasMutant(c, net, tr, nd, &mainTip, heavyN, heavyGas)
